@@ -159,6 +159,8 @@ type Outcome struct {
 	CrashPoints int      `json:"crashPoints,omitempty"`
 	FaultPoints int      `json:"faultPoints,omitempty"`
 	RaceReports int      `json:"raceReports,omitempty"`
+	OnErrors  int        `json:"onErrors,omitempty"`
+	LastErrors []string  `json:"lastErrors,omitempty"`
 }
 
 func hashBytes(b []byte) uint64 {
